@@ -35,10 +35,11 @@ import random
 
 from .. import core
 from ..mon import arbor
-from ..mon.budget import budget, StepBudgetExceeded
+from ..mon.budget import budget, StepBudgetExceeded, cpu_budget, CpuBudgetExceeded
 from ..mon.hooks import Hooks
 from . import _c20_util as U
 
+CPU_LIMIT_S = 20.0      # per read of an input of at most a few KB: > 1000x the CPU cost of any valid document
 PROP = "C20"
 LEVEL = "exploration"
 TECHNIQUE = ("runtime monitoring: JUMP step budget + exception classifier + arborescence walker + hooks capturing the "
@@ -383,12 +384,21 @@ def read_and_judge(ctx, fmt, route, text, kw, dtype, klass="generated", expect_v
     result = None
     outcome = None
     try:
-        with budget(limit) as b:
-            ctx.ev("budget-armed")
-            result = do_read(fmt, route, text, kw, dtype)
+        # second line for loops the JUMP budget cannot see (inside C code called by the library, e.g. a regular
+        # expression that backtracks exponentially): process CPU time in user mode, i.e. virtual time, not wall clock
+        with cpu_budget(CPU_LIMIT_S):
+            with budget(limit) as b:
+                ctx.ev("budget-armed")
+                result = do_read(fmt, route, text, kw, dtype)
         outcome = "returned"
     except core.CaseTimeout:
         raise
+    except CpuBudgetExceeded as e:
+        ctx.ev("outcome:cpu-budget-exceeded")
+        ctx.violation("%s|does-not-terminate|cpu-time|%s" % (fmt, e.where.split(":")[-1]),
+                      "read of %d chars consumed more than %.0f s of CPU time (valid inputs of this size need milliseconds); "
+                      "interrupted in %s" % (len(text), CPU_LIMIT_S, e.where), det)
+        return "hang"
     except StepBudgetExceeded as e:
         # the verdict is the budget's; a second, shorter run of the same read only names the spinning function
         mon.reset()
